@@ -103,7 +103,7 @@ MONITORS = {
     "C04": [generic.mon_c04],
     "C06": [generic.mon_c06],
     "C11": [generic.mon_c11, generic.mon_c11_stuck, generic.mon_c11_slept],
-    "C18": [generic.mon_c18],
+    "C18": [generic.mon_c18, generic.mon_poll_fault_attribution],
 }
 
 
